@@ -94,6 +94,9 @@ func vfc18Perm(r *vfutil.Rand, n int) []int {
 }
 
 func vfc18IntsTok(xs []int) string {
+	if len(xs) == 0 {
+		return "."
+	}
 	p := make([]string, len(xs))
 	for i, x := range xs {
 		p[i] = strconv.Itoa(x)
@@ -108,6 +111,21 @@ func (w *vfc18World) nodesCluster() *cluster.Cluster {
 	}
 	c := cluster.VerifNewStaticCluster(w.nodes.addrs, func(slot int) int { return w.ownerIdx(slot) },
 		func(cmd string, args ...interface{}) ([]string, error) { return w.nodesHook(cmd, args...) })
+	if w.clusters == nil {
+		w.clusters = map[string]*cluster.Cluster{}
+	}
+	w.clusters[key] = c
+	return c
+}
+
+// the client whose COMMAND GETKEYS is the REAL Cluster.commandGetKeys (no hook): getRandomNode draws the node, the
+// query travels over TCP and the node double answers it in its own way
+func (w *vfc18World) nodesClusterReal() *cluster.Cluster {
+	key := "nodes-real/0"
+	if c, ok := w.clusters[key]; ok {
+		return c
+	}
+	c := cluster.VerifNewStaticCluster(w.nodes.addrs, func(slot int) int { return w.ownerIdx(slot) }, nil)
 	if w.clusters == nil {
 		w.clusters = map[string]*cluster.Cluster{}
 	}
@@ -160,7 +178,9 @@ func (w *vfc18World) nodesOne(r *vfutil.Rand, cmds []vfc18Cmd) {
 	for i := range picks {
 		picks[i] = r.Intn(w.n)
 	}
+	w.nodesReal = r.Bool() // half of the cases: the REAL commandGetKeys (getRandomNode + do over TCP) instead of the hook
 	w.nodesRun(r, cmds, fbs, vfc18Perm(r, w.n), picks)
+	w.nodesReal = false
 }
 
 func vfc18ParseInts(tok string) []int {
@@ -185,8 +205,14 @@ func (w *vfc18World) nodesRun(r *vfutil.Rand, cmds []vfc18Cmd, fbs []string, ord
 	for _, f := range fbs {
 		uniform = uniform && f == fbs[0]
 	}
+	real := w.nodesReal
 	replay := map[string]interface{}{"nodes_fbs": strings.Join(fbs, ","), "nodes_order": vfc18IntsTok(order), "nodes_picks": vfc18IntsTok(picks),
 		"rcmds": vfc18RToks(cmds), "cmds": toks}
+	if real {
+		// the node asked is drawn by the REAL getRandomNode and observed at the node doubles: `picks` is filled in after the commit
+		replay["nodes_real"] = 1
+		picks = nil
+	}
 	intro := &vfc18NodesIntrospector{fbs: fbs, order: order}
 	// what the REAL resolver handed to the builder (the builder's own view of the unit's keys)
 	var resolved [][]string
@@ -278,7 +304,10 @@ func (w *vfc18World) nodesRun(r *vfutil.Rand, cmds []vfc18Cmd, fbs []string, ord
 
 	seq := int64(r.Range(1, 1<<30))
 	kind := vfutil.Pick(r, []string{"l", "j", "r"})
-	op := fmt.Sprintf("c18 nodes %s %s %d 6d76 . %d %s %s %s %s", kind, vfutil.HexS(w.cp), seq, w.n, strings.Join(fbs, ","), vfc18IntsTok(order), vfc18IntsTok(picks), toks)
+	mkOp := func() string {
+		return fmt.Sprintf("c18 nodes %s %s %d 6d76 . %d %s %s %s %s", kind, vfutil.HexS(w.cp), seq, w.n, strings.Join(fbs, ","), vfc18IntsTok(order), vfc18IntsTok(picks), toks)
+	}
+	op := mkOp()
 	unit, err := buildBisyncReplayUnitWithMode(seq, 100, 200, len(cmds) > 1, resolver, vfc18AofCmds(cmds), bisyncSlotMode{})
 	if uniform {
 		s.Count("nodes_uniform")
@@ -377,7 +406,22 @@ func (w *vfc18World) nodesRun(r *vfutil.Rand, cmds []vfc18Cmd, fbs []string, ord
 		}
 		return keys, e
 	}
-	conn := &vfc18Redis{c: w.nodesCluster()}
+	cl := w.nodesCluster()
+	if real {
+		cl = w.nodesClusterReal()
+		w.nodes.mu.Lock()
+		w.nodes.queries, w.nodes.queryKeys = nil, nil
+		w.nodes.getkeysAns = func(idx int, cmd [][]byte) ([]string, error, bool) {
+			return vfc18NodeAnswer(fbs[idx], cmd[1:]) // cmd[0] is the command's name
+		}
+		w.nodes.mu.Unlock()
+		defer func() {
+			w.nodes.mu.Lock()
+			w.nodes.getkeysAns = nil
+			w.nodes.mu.Unlock()
+		}()
+	}
+	conn := &vfc18Redis{c: cl}
 	w.nodes.take()
 	var derr error
 	switch kind {
@@ -387,8 +431,48 @@ func (w *vfc18World) nodesRun(r *vfutil.Rand, cmds []vfc18Cmd, fbs []string, ord
 		derr = w.ro.execBisyncRdbUnit(conn, "runid-1", unit)
 	}
 	blocks, stray := w.nodes.take()
-	flagSet, _ := cluster.VerifTxnFlag(w.nodesCluster()) // implementation state: compared with the model in the op line
-	if calls > len(picks) {
+	flagSet, _ := cluster.VerifTxnFlag(cl) // implementation state: compared with the model in the op line
+	if real {
+		// what the REAL commandGetKeys did: which node each query went to, and what it named
+		w.nodes.mu.Lock()
+		picks = append([]int(nil), w.nodes.queries...)
+		consulted = nil
+		for _, ks := range w.nodes.queryKeys {
+			if ks != nil {
+				consulted = append(consulted, ks)
+			}
+		}
+		w.nodes.mu.Unlock()
+		calls = len(picks)
+		replay["nodes_picks"] = vfc18IntsTok(picks)
+		unknown := 0
+		for _, c := range cmds {
+			if c.Class != "known" {
+				unknown++
+			}
+		}
+		if calls > unknown {
+			s.Violate("tie-shape:more-getkeys-queries-than-commands", fmt.Sprintf("%d COMMAND GETKEYS queries for %d commands outside the tables", calls, unknown), replay)
+		}
+		for _, n := range picks {
+			s.Count(fmt.Sprintf("nodes_real_asked_node_%d", n))
+		}
+		if calls > 0 && picks[0] != w.ownerIdx(int(unit.Slot)) {
+			s.Count("nodes_real_asked_other_than_receiver")
+		}
+		s.Count("nodes_real_cases")
+		// the oracle's client view, with the nodes that were really asked
+		clientOK = viewAccepts(func(k int, c vfc18Cmd) ([]string, bool) {
+			n := 0
+			if k < len(picks) {
+				n = picks[k]
+			}
+			keys, err, bad := vfc18NodeAnswer(fbs[n], c.Args)
+			return keys, !bad && err == nil && len(keys) > 0
+		})
+		op = mkOp()
+	}
+	if !real && calls > len(picks) {
 		s.Violate("tie-shape:more-getkeys-queries-than-commands", fmt.Sprintf("%d COMMAND GETKEYS queries for one unit", calls), replay)
 	}
 	if uniformKeys && (derr == nil) != (clientOK && receiverOK) {
